@@ -29,6 +29,10 @@ def doc_mod(v, m):
     raise ValueError(m)
 
 
+class Stop(Exception):
+    pass
+
+
 def temp_path(p):
     q = p.replace("../", "__parent__")
     return "__fsroot__" + q if q.startswith("/") else q
@@ -40,6 +44,8 @@ def doc_eval(piece, env):
         v = env["in"][name]
         for m in mods:
             v = doc_mod(v, m)
+        if v == "" and "basename" not in mods:
+            raise Stop()       # a path that the modifiers reduce to nothing stops the workflow (the code indexes its first byte)
         return v if (v.startswith("/") or "basename" in mods) else "../" + v
     if kind == "o":
         v = temp_path(env["out"][name])
@@ -72,7 +78,10 @@ def gen_structured(rng):
     def sel(kind, d):
         return [(n, v) for n, v in d.items() if (kind, n) in used]
     line = "%s %s 0 %s %s %s" % (hx(pat), pl(sel("i", env["in"])), pl(sel("o", env["out"])), pl(sel("p", env["par"])), pl(sel("t", env["tag"])))
-    expected = "".join(p if isinstance(p, str) else doc_eval(p, env) for p in pieces)
+    try:
+        expected = "".join(p if isinstance(p, str) else doc_eval(p, env) for p in pieces)
+    except Stop:
+        expected = None
     return line, pat, expected
 
 
